@@ -78,7 +78,7 @@ Inductive aval :=
 | VList (l : list aval).       (* std::vector, VectorT; std::map as a key-sorted list of VList [k; v] *)
 
 Inductive exn := LengthError | BadAlloc.
-Inductive ubk := UB_handle_overflow | UB_invalid_halfface.
+Inductive ubk := UB_handle_overflow.
 
 Record pentry := { p_kind : kind; p_name : list byte; p_type : atype; p_persistent : bool; p_vals : list aval }.
 
@@ -89,7 +89,13 @@ Record fin := { f_is : istream; f_mesh : mesh; f_props : list pentry }.
 Inductive outcome :=
 | RTrue (f : fin) | RFalse (f : fin) | RExn (e : exn) | RUB (u : ubk) | RSpin.
 
-Inductive res (A : Type) := Go (a : A) | Stop (o : outcome).
+(* how a sub-step can end the read: `return false`, an exception, UB, fuel exhausted.  (Success is only decided at
+   the very end of readStream, so "a stopped step is never a success" holds by typing.) *)
+Inductive stop := SFalse (f : fin) | SExn (e : exn) | SUB (u : ubk) | SSpin.
+Definition out_of_stop (st : stop) : outcome :=
+  match st with SFalse f => RFalse f | SExn e => RExn e | SUB u => RUB u | SSpin => RSpin end.
+
+Inductive res (A : Type) := Go (a : A) | Stop (o : stop).
 Arguments Go {A} a.
 Arguments Stop {A} o.
 Definition bind {A B} (x : res A) (f : A -> res B) : res B :=
@@ -100,8 +106,8 @@ Notation "'doR' x <- m ; f" := (bind m (fun x => f)) (at level 200, x pattern, m
 
 Definition ptrdiff_max : Z := 9223372036854775807.
 Definition alloc (o : opts) (n esz : Z) : res unit :=
-  if n >? ptrdiff_max / esz then Stop (RExn LengthError)
-  else if n * esz >? o_alloc o then Stop (RExn BadAlloc)
+  if n >? ptrdiff_max / esz then Stop (SExn LengthError)
+  else if n * esz >? o_alloc o then Stop (SExn BadAlloc)
   else Go tt.
 
 (* ------------------------------------------------------------------ getCleanLine (FileManager.cc:97-130) *)
@@ -174,7 +180,7 @@ Definition default_val (t : atype) : aval :=
 
 (* ------------------------------------------------------------------ deserializers *)
 
-Inductive dres := DOk (s : istream) (v : aval) | DStop (o : outcome).
+Inductive dres := DOk (s : istream) (v : aval) | DStop (o : stop).
 
 Definition or_old (o : option Z) (old : aval) : aval := match o with Some z => VInt z | None => old end.
 Definition or_oldf (o : option Z) (old : aval) : aval := match o with Some z => VFlt z | None => old end.
@@ -227,7 +233,7 @@ Section Reader.
     end.
 
   (* vector<vector<HFH>>: the inner deserializer can stop *)
-  Fixpoint deser_vecvec (o : opts) (olds : list aval) (s : istream) : istream * list aval + outcome :=
+  Fixpoint deser_vecvec (o : opts) (olds : list aval) (s : istream) : istream * list aval + stop :=
     match olds with
     | [] => inl (s, [])
     | x :: t =>
@@ -261,9 +267,15 @@ Section Reader.
     | S k =>
         let '(s1, kv) := get_num NI32 s in
         let '(s2, vv) := get_num NI32 s1 in
-        deser_map_loop k s2 (map_insert (match kv with Some z => z | None => -1 end)
-                                        (VInt (match vv with Some z => z | None => 0 end)) acc)
+        if failb s2 then (s2, acc)           (* `if (!is) break;` *)
+        else deser_map_loop k s2 (map_insert (match kv with Some z => z | None => -1 end)
+                                             (VInt (match vv with Some z => z | None => 0 end)) acc)
     end.
+
+  (* the loop runs `size` times unless the stream fails; every iteration that does not fail consumes at least one
+     character, so min(size, |rest|+1) iterations are the same computation (AsciiProofs.deser_map_loop_cap) - this keeps
+     the extracted model runnable for size = 2^64-1 *)
+  Definition map_iters (n : Z) (s : istream) : nat := Z.to_nat (Z.min n (Z.of_nat (S (length (rest s))))).
 
   (* deserialize(std::istream&, std::string&), Serializers.cc:53-66 *)
   Definition deser_string (o : opts) (s : istream) (old : aval) : dres :=
@@ -298,7 +310,7 @@ Section Reader.
     | TString => deser_string o s old
     | TMapHehInt =>
         let '(s1, n) := read_size s in
-        let '(s2, l) := deser_map_loop (Z.to_nat n) s1 [] in DOk s2 (VList l)
+        let '(s2, l) := deser_map_loop (map_iters n s1) s1 [] in DOk s2 (VList l)
     | TVecDouble => deser_vector o 8 (VFlt 0) deser_double s old
     | TVecVh | TVecHfh => deser_vector o 4 (VInt (-1)) deser_handle s old
     | TVecVecHfh =>
@@ -317,7 +329,7 @@ Section Reader.
     end.
 
   (* PropertyStorageT::deserialize: for (i < size()) deserialize(_istr, data_[i]) *)
-  Fixpoint deser_all (o : opts) (t : atype) (olds : list aval) (s : istream) : istream * list aval + outcome :=
+  Fixpoint deser_all (o : opts) (t : atype) (olds : list aval) (s : istream) : istream * list aval + stop :=
     match olds with
     | [] => inl (s, [])
     | x :: rest =>
@@ -367,7 +379,7 @@ Section Reader.
   (* readProperty (FileManagerT_impl.hh:371-428) *)
   Definition read_property (o : opts) (m : mesh) (s : istream) (props : list pentry) : res (istream * list pentry) :=
     match get_clean_line (gcl_fuel s) s [] with
-    | None => Stop RSpin
+    | None => Stop SSpin
     | Some (s1, line, _) =>
         match line with
         | [] => Go (s1, props)
@@ -395,7 +407,7 @@ Section Reader.
   Fixpoint prop_loop (fuel : nat) (o : opts) (m : mesh) (s : istream) (props : list pentry) : res (istream * list pentry) :=
     if good s then
       match fuel with
-      | O => Stop RSpin
+      | O => Stop SSpin
       | S k =>
           doR (s1, p1) <- read_property o m s props;
           prop_loop k o m s1 p1
@@ -404,13 +416,14 @@ Section Reader.
 
   (* ------------------------------------------------------------------ the sections *)
 
+  (* d_pos: the positions added so far, LAST vertex first *)
   Record rd := { d_is : istream; d_line : list byte; d_stmp : list byte; d_v : Z * Z * Z; d_m : mesh; d_pos : list aval }.
 
   Definition pos_name : list byte := bs "ovm:position".
   Definition pos_entry (pos : list aval) : pentry :=
     {| p_kind := KV; p_name := pos_name; p_type := TVec 3 SD; p_persistent := false; p_vals := pos |}.
-  Definition fin_of (d : rd) : fin := {| f_is := d_is d; f_mesh := d_m d; f_props := [pos_entry (d_pos d)] |}.
-  Definition ret_false (d : rd) : outcome := RFalse (fin_of d).
+  Definition fin_of (d : rd) : fin := {| f_is := d_is d; f_mesh := d_m d; f_props := [pos_entry (rev_append (d_pos d) [])] |}.
+  Definition ret_false (d : rd) : stop := SFalse (fin_of d).
 
   Definition with_line (d : rd) (s : istream) (l : list byte) : rd :=
     {| d_is := s; d_line := l; d_stmp := d_stmp d; d_v := d_v d; d_m := d_m d; d_pos := d_pos d |}.
@@ -422,7 +435,7 @@ Section Reader.
   (* getCleanLine(_istream, line) on the reader's own `line` variable *)
   Definition gcl (d : rd) : res rd :=
     match get_clean_line (gcl_fuel (d_is d)) (d_is d) (d_line d) with
-    | None => Stop RSpin
+    | None => Stop SSpin
     | Some (s1, l1, _) => Go (with_line d s1 l1)
     end.
 
@@ -459,7 +472,7 @@ Section Reader.
         let v := (valz x vx, valz y vy, valz z vz) in
         let '(m1, _) := add_vertex (d_m d1) in
         vertex_loop k {| d_is := d_is d1; d_line := d_line d1; d_stmp := d_stmp d1; d_v := v; d_m := m1;
-                         d_pos := d_pos d1 ++ [VList [VFlt (fst (fst v)); VFlt (snd (fst v)); VFlt (snd v)]] |}
+                         d_pos := VList [VFlt (fst (fst v)); VFlt (snd (fst v)); VFlt (snd v)] :: d_pos d1 |}
     end.
 
   Definition int_max_z : Z := 2147483647.
@@ -475,22 +488,25 @@ Section Reader.
         let '(_, b) := get_num NU32 ss1 in
         let v1 := valz a 0 in let v2 := valz b 0 in
         if (v1 >=? nvd) || (v2 >=? nvd) then Stop (ret_false d1)
-        else if (v1 >? int_max_z) || (v2 >? int_max_z) then Stop (RUB UB_handle_overflow)
+        else if (v1 >? int_max_z) || (v2 >? int_max_z) then Stop (SUB UB_handle_overflow)
         else
           let '(m1, _) := add_edge (d_m d1) (Z.to_nat v1) (Z.to_nat v2) true in
           edge_loop k nvd (with_mesh d1 m1)
     end.
 
   (* for(unsigned e = 0; e < val; ++e) { v1 = 0; sstr >> v1; if (v1 >= limit) return false; push_back } *)
-  Fixpoint handle_loop (n : nat) (limit : Z) (ss : istream) (acc : list nat) : option (istream * list nat) + ubk :=
+  Fixpoint handle_loop (n : nat) (limit : Z) (ss : istream) : option (list nat) + ubk :=
     match n with
-    | O => inl (Some (ss, acc))
+    | O => inl (Some [])
     | S k =>
         let '(ss1, a) := get_num NU32 ss in
         let v1 := valz a 0 in
         if v1 >=? limit then inl None
         else if v1 >? int_max_z then inr UB_handle_overflow
-        else handle_loop k limit ss1 (acc ++ [Z.to_nat v1])
+        else match handle_loop k limit ss1 with
+             | inl (Some l) => inl (Some (Z.to_nat v1 :: l))
+             | r => r
+             end
     end.
 
   Definition two32 : Z := 4294967296.
@@ -498,22 +514,23 @@ Section Reader.
   (* one face / cell line: valence, reserve, handles.  With val >= 2^32 the `unsigned` counter never reaches val:
      the loop ends only through the range check (the line is finite, so after |line|+1 iterations every further
      iteration reads v1 = 0 from a failed stream) *)
-  Definition read_handles (o : opts) (limit : Z) (d : rd) : res (list nat) :=
+  Definition read_handles (o : opts) (is_face : bool) (limit : Z) (d : rd) : res (list nat) :=
     let ss := sstr_of (d_line d) in
     let '(ss1, vo) := get_num NU64 ss in
     let val := valz vo 0 in
+    if is_face && (val =? 0) then Stop (ret_false d) else       (* a face without halfedges is refused *)
     doR _ <- alloc o val 4;
     if val <? two32 then
-      match handle_loop (Z.to_nat val) limit ss1 [] with
-      | inl (Some (_, l)) => Go l
+      match handle_loop (Z.to_nat val) limit ss1 with
+      | inl (Some l) => Go l
       | inl None => Stop (ret_false d)
-      | inr u => Stop (RUB u)
+      | inr u => Stop (SUB u)
       end
     else
-      match handle_loop (S (length (d_line d))) limit ss1 [] with
+      match handle_loop (S (length (d_line d))) limit ss1 with
       | inl None => Stop (ret_false d)
-      | inl (Some _) => Stop RSpin
-      | inr u => Stop (RUB u)
+      | inl (Some _) => Stop SSpin
+      | inr u => Stop (SUB u)
       end.
 
   Definition m_add_face (o : opts) (m : mesh) (hes : list nat) : mesh * option nat :=
@@ -523,10 +540,10 @@ Section Reader.
     | MHex => hex_add_face m hes (o_check o)
     end.
 
-  Definition m_add_cell (o : opts) (m : mesh) (hfs : list nat) : houtcome :=
+  Definition m_add_cell (o : opts) (m : mesh) (hfs : list nat) : mesh * option nat :=
     match o_mesh o with
-    | MPoly => let '(m1, r) := add_cell m hfs (o_check o) in HOk m1 r
-    | MTet => let '(m1, r) := tet_add_cell m hfs (o_check o) in HOk m1 r
+    | MPoly => add_cell m hfs (o_check o)
+    | MTet => tet_add_cell m hfs (o_check o)
     | MHex => hex_add_cell m hfs (o_check o)
     end.
 
@@ -535,7 +552,7 @@ Section Reader.
     | O => Go d
     | S k =>
         doR d1 <- gcl d;
-        doR hes <- read_handles o nhe d1;
+        doR hes <- read_handles o true nhe d1;
         match m_add_face o (d_m d1) hes with
         | (m1, Some _) => face_loop k o nhe (with_mesh d1 m1)
         | (_, None) => Stop (ret_false d1)
@@ -547,11 +564,10 @@ Section Reader.
     | O => Go d
     | S k =>
         doR d1 <- gcl d;
-        doR hfs <- read_handles o nhf d1;
+        doR hfs <- read_handles o false nhf d1;
         match m_add_cell o (d_m d1) hfs with
-        | HOk m1 (Some _) => cell_loop k o nhf (with_mesh d1 m1)
-        | HOk _ None => Stop (ret_false d1)
-        | HUB => Stop (RUB UB_invalid_halfface)
+        | (m1, Some _) => cell_loop k o nhf (with_mesh d1 m1)
+        | (_, None) => Stop (ret_false d1)
         end
     end.
 
@@ -593,10 +609,10 @@ Section Reader.
       doR d16 <- cell_loop (Z.to_nat ncd) o (wrap64 (2 * nfd)) d15;
       Go d16 in
     match r with
-    | Stop out => out
+    | Stop st => out_of_stop st
     | Go d =>
-        match prop_loop (gcl_fuel (d_is d)) o (d_m d) (d_is d) [pos_entry (d_pos d)] with
-        | Stop out => out
+        match prop_loop (gcl_fuel (d_is d)) o (d_m d) (d_is d) [pos_entry (rev_append (d_pos d) [])] with
+        | Stop st => out_of_stop st
         | Go (s1, props) =>
             if negb (eofb s1) then RFalse {| f_is := s1; f_mesh := d_m d; f_props := props |}
             else
